@@ -201,6 +201,8 @@ func normSrc(n ast.Node) string {
 
 type fingerprint struct{ File, Func, Hash string }
 
+var selections [][3]string // map-range sites whose iteration feeds a selection (sort in the function, break / return in the body)
+
 var fpRoots = map[string]string{} // file|func -> normalised source of the owning declaration
 
 var fingerprints []fingerprint
@@ -393,6 +395,7 @@ func scan(pi *pkgInfo, relDir string) []site {
 			count[k]++
 		}
 		visit := func(fn string, root ast.Node) {
+			fnSrc := normSrc(root)
 			ast.Inspect(root, func(n ast.Node) bool {
 				switch x := n.(type) {
 				case *ast.AssignStmt:
@@ -473,6 +476,22 @@ func scan(pi *pkgInfo, relDir string) []site {
 							kind = "pbmap"
 						}
 						add(fn, kind, src(x.X))
+						// does the iteration feed a SELECTION (first match / early exit in the body, or a sort in the owning function)?
+						sel := strings.Contains(fnSrc, "sort.Slice") || strings.Contains(fnSrc, "sort.Sort") || strings.Contains(fnSrc, "sort.Stable") || strings.Contains(fnSrc, "sort.Strings")
+						ast.Inspect(x.Body, func(m ast.Node) bool {
+							switch y := m.(type) {
+							case *ast.ReturnStmt:
+								sel = true
+							case *ast.BranchStmt:
+								if y.Tok == token.BREAK {
+									sel = true
+								}
+							}
+							return true
+						})
+						if sel && kind == "maprange" {
+							selections = append(selections, [3]string{rel, fn, src(x.X)})
+						}
 					} else if b, ok := t.Underlying().(*types.Basic); ok && b.Kind() == types.Invalid {
 						genErrs = append(genErrs, rel+": "+fn+": range over expression of unknown type "+src(x.X))
 					}
@@ -749,6 +768,15 @@ func main() {
 			q = append(q, coqStr(e))
 		}
 		fmt.Fprintf(&b, "  (%s, %s, [%s])%s\n", coqStr(f.File), coqStr(f.Func), strings.Join(q, "; "), sep)
+	}
+	b.WriteString("]%string.\n\n")
+	b.WriteString("(* map-range sites that feed a SELECTION (a sort in the owning function, or break / return inside the loop): with tied\n   candidates the result follows the iteration order unless the comparison is total; the replica run needs the ties family *)\n")
+	b.WriteString("Definition selection_sites : list (string * string * string) := [")
+	for i, x := range selections {
+		if i > 0 {
+			b.WriteString("; ")
+		}
+		fmt.Fprintf(&b, "(%s, %s, %s)", coqStr(x[0]), coqStr(x[1]), coqStr(x[2]))
 	}
 	b.WriteString("]%string.\n\n")
 	lst := func(name string, l []string) {
